@@ -402,12 +402,37 @@ theorem nextCancelLoop_frameA (fuel : Nat) (s : St) : FrameA s (nextCancelLoop f
 @[simp] theorem nextCancelLoop_readFused (fuel : Nat) (s : St) : ((nextCancelLoop fuel s).1).readFused = s.readFused := (nextCancelLoop_frameA fuel s).readFused
 @[simp] theorem nextCancelLoop_tObs (fuel : Nat) (s : St) : ((nextCancelLoop fuel s).1).obs.filter isT = s.obs.filter isT := (nextCancelLoop_frameA fuel s).tobs
 
-theorem pollExpired_frameA (s : St) (now : Nat) : FrameA s (pollExpired s now).1 := by
-  unfold pollExpired; split
-  · simp only; split
-    · exact .trans (by frameA_rfl) (osSend_frameA _ _ _)
+theorem rearmWith_frameA (s : St) (id t : Nat) (r : DelayQ × DelayQ.InsertRes × Bool) :
+    FrameA s (rearmWith s id t r).st := by
+  unfold rearmWith; split
+  · exact .trans (by frameA_rfl) (emit_frameA _ _ rfl)
+  · show FrameA s (if _ then _ else _)
+    split
+    · exact .trans (by frameA_rfl) (wakeDispatch_frameA _)
+    · frameA_rfl
+
+theorem expireWith_frameA (s : St) (now : Nat) (r : DelayQ × DelayQ.PollRes) : FrameA s (expireWith s now r).st := by
+  unfold expireWith; split
+  · split
+    · split
+      · exact rearmWith_frameA _ _ _ _
+      · exact .trans (by frameA_rfl) (osSend_frameA _ _ _)
     · frameA_rfl
   · frameA_rfl
+
+theorem expireStep_frameA (s : St) (now : Nat) : FrameA s (expireStep s now).st := expireWith_frameA _ _ _
+
+theorem pollExpiredLoop_frameA (fuel : Nat) (s : St) (now : Nat) : FrameA s (pollExpiredLoop fuel s now).1 := by
+  induction fuel generalizing s with
+  | zero => exact .refl _
+  | succ fuel ih =>
+    have h := expireStep_frameA s now
+    unfold pollExpiredLoop; split <;> rename_i heq <;> rw [heq] at h
+    · exact .trans h (ih _)
+    · exact h
+
+theorem pollExpired_frameA (s : St) (now : Nat) : FrameA s (pollExpired s now).1 :=
+  pollExpiredLoop_frameA _ s now
 @[simp] theorem pollExpired_k (s : St) (now : Nat) : ((pollExpired s now).1).k = s.k := (pollExpired_frameA s now).k
 @[simp] theorem pollExpired_maxInFlight (s : St) (now : Nat) : ((pollExpired s now).1).maxInFlight = s.maxInFlight := (pollExpired_frameA s now).maxInFlight
 @[simp] theorem pollExpired_bufCap (s : St) (now : Nat) : ((pollExpired s now).1).bufCap = s.bufCap := (pollExpired_frameA s now).bufCap
@@ -877,6 +902,9 @@ theorem pumpWrite_cases {motive : St × PW Unit → Prop} (s : St) (now : Nat)
       pollWriteCancel s1 = (s2, r2) → r2.isStop = true → motive (s2, r2))
     (expired : ∀ s1 r1 s2 r2 s3, pollWriteRequest s now = (s1, r1) → r1.isStop = false →
       pollWriteCancel s1 = (s2, r2) → r2.isStop = false → pollExpired s2 now = (s3, true) → motive (s3, .some ()))
+    (poison : ∀ s1 r1 s2 r2 s3, pollWriteRequest s now = (s1, r1) → r1.isStop = false →
+      pollWriteCancel s1 = (s2, r2) → r2.isStop = false → pollExpired s2 now = (s3, false) → s3.poisoned = true →
+      motive (s3, .spin))
     (close : ∀ s1 s2 s3 s4 r4, pollWriteRequest s now = (s1, .none) → pollWriteCancel s1 = (s2, .none) →
       pollExpired s2 now = (s3, false) → tClose s3 = (s4, r4) → motive (s4, closePW r4))
     (flush : ∀ s1 r1 s2 r2 s3 s4 r4, pollWriteRequest s now = (s1, r1) → r1.isStop = false →
@@ -905,6 +933,10 @@ theorem pumpWrite_cases {motive : St × PW Unit → Prop} (s : St) (now : Nat)
       cases exp
       case true => rw [if_pos rfl]; exact expired _ _ _ _ _ h1 rfl h2 rfl h3
       case false =>
+        rw [if_neg (by simp)]
+        by_cases hpo : s3.poisoned = true
+        · rw [if_pos hpo]; exact poison _ _ _ _ _ h1 rfl h2 rfl h3 hpo
+        rw [if_neg hpo]
         simp only [Bool.false_eq_true, ↓reduceIte, Bool.and_self, Bool.and_false, Bool.and_true]
         first
           | (rcases h4 : tClose s3 with ⟨s4, r4⟩
@@ -1549,12 +1581,37 @@ theorem pollWriteCancel_frameD (s : St) : FrameD s (pollWriteCancel s).1 := by
 theorem pollWriteCancel_pq_le (s : St) : ((pollWriteCancel s).1).pq.length ≤ s.pq.length := (pollWriteCancel_frameD s).pq
 theorem pollWriteCancel_cq_le (s : St) : ((pollWriteCancel s).1).cq.length ≤ s.cq.length := (pollWriteCancel_frameD s).cq
 
-theorem pollExpired_frameD (s : St) (now : Nat) : FrameD s (pollExpired s now).1 := by
-  unfold pollExpired; split
-  · simp only; split
-    · exact .trans (by frameD_rfl) (osSend_frameD _ _ _)
+theorem rearmWith_frameD (s : St) (id t : Nat) (r : DelayQ × DelayQ.InsertRes × Bool) :
+    FrameD s (rearmWith s id t r).st := by
+  unfold rearmWith; split
+  · exact .trans (by frameD_rfl) (emit_frameD _ _)
+  · show FrameD s (if _ then _ else _)
+    split
+    · exact .trans (by frameD_rfl) (wakeDispatch_frameD _)
+    · frameD_rfl
+
+theorem expireWith_frameD (s : St) (now : Nat) (r : DelayQ × DelayQ.PollRes) : FrameD s (expireWith s now r).st := by
+  unfold expireWith; split
+  · split
+    · split
+      · exact rearmWith_frameD _ _ _ _
+      · exact .trans (by frameD_rfl) (osSend_frameD _ _ _)
     · frameD_rfl
   · frameD_rfl
+
+theorem expireStep_frameD (s : St) (now : Nat) : FrameD s (expireStep s now).st := expireWith_frameD _ _ _
+
+theorem pollExpiredLoop_frameD (fuel : Nat) (s : St) (now : Nat) : FrameD s (pollExpiredLoop fuel s now).1 := by
+  induction fuel generalizing s with
+  | zero => exact .refl _
+  | succ fuel ih =>
+    have h := expireStep_frameD s now
+    unfold pollExpiredLoop; split <;> rename_i heq <;> rw [heq] at h
+    · exact .trans h (ih _)
+    · exact h
+
+theorem pollExpired_frameD (s : St) (now : Nat) : FrameD s (pollExpired s now).1 :=
+  pollExpiredLoop_frameD _ s now
 @[simp] theorem pollExpired_handles (s : St) (now : Nat) : ((pollExpired s now).1).handles = s.handles := (pollExpired_frameD s now).handles
 @[simp] theorem pollExpired_sigs (s : St) (now : Nat) : ((pollExpired s now).1).calls.map callSig = s.calls.map callSig := (pollExpired_frameD s now).sigs
 @[simp] theorem pollExpired_senders (s : St) (now : Nat) : senders ((pollExpired s now).1) = senders s := (pollExpired_frameD s now).senders
@@ -1562,7 +1619,7 @@ theorem pollExpired_pq_le (s : St) (now : Nat) : ((pollExpired s now).1).pq.leng
 theorem pollExpired_cq_le (s : St) (now : Nat) : ((pollExpired s now).1).cq.length ≤ s.cq.length := (pollExpired_frameD s now).cq
 
 theorem pumpWrite_frameD (s : St) (now : Nat) : FrameD s (pumpWrite s now).1 := by
-  refine pumpWrite_cases (motive := fun p => FrameD s p.1) s now ?_ ?_ ?_ ?_ ?_
+  refine pumpWrite_cases (motive := fun p => FrameD s p.1) s now ?_ ?_ ?_ ?_ ?_ ?_
   · intro s1 r1 h1 _
     have f1 := pollWriteRequest_frameD s now; rw [h1] at f1; exact f1
   · intro s1 r1 s2 r2 h1 _ h2 _
@@ -1570,6 +1627,11 @@ theorem pumpWrite_frameD (s : St) (now : Nat) : FrameD s (pumpWrite s now).1 := 
     have f2 := pollWriteCancel_frameD s1; rw [h2] at f2
     exact f1.trans f2
   · intro s1 r1 s2 r2 s3 h1 _ h2 _ h3
+    have f1 := pollWriteRequest_frameD s now; rw [h1] at f1
+    have f2 := pollWriteCancel_frameD s1; rw [h2] at f2
+    have f3 := pollExpired_frameD s2 now; rw [h3] at f3
+    exact (f1.trans f2).trans f3
+  · intro s1 r1 s2 r2 s3 h1 _ h2 _ h3 _
     have f1 := pollWriteRequest_frameD s now; rw [h1] at f1
     have f2 := pollWriteCancel_frameD s1; rw [h2] at f2
     have f3 := pollExpired_frameD s2 now; rw [h3] at f3
